@@ -139,6 +139,10 @@ def _abstract_interchange(interp, args, kwargs):
     self, i, j = args[0], args[1], args[2]
     left = kwargs.get('left', args[3] if len(args) > 3 else VBool(False))
     self = w.as_diagram(self)
+    if getattr(ex, 'far_left', None) is not None:
+        # inside a distant move: every adjacent step is made with the preference the caller asked for
+        ex.prove('C05:far.the left / right preference is forwarded to every adjacent step',
+                 ex.truth(left) == ex.far_left)
     # the spec decides the exceptions and gives the two new layers
     w.spec_mode += 1
     try:
@@ -425,6 +429,7 @@ def _p_interchange_far(ex):
     left = ex.sym_bool('left')
     ex.assume(z3.Or(j.t < i.t - 1, j.t > i.t + 1))
     ex.compare_spec = False
+    ex.far_left = left.t
     return [d, i, j, left], {}
 
 
